@@ -1,0 +1,10 @@
+//go:build verif
+
+package ovmf
+
+// VerifUnacceptedMemRanges exposes the RAM-minus-private-sections interval subtraction so that a
+// verification harness can compare it exhaustively on small scopes with a reference. Only built
+// with -tags verif.
+func VerifUnacceptedMemRanges(privateResources []GuestPhysicalRegion, ramResources []GuestPhysicalRegion) []GuestPhysicalRegion {
+	return unacceptedMemRanges(privateResources, ramResources)
+}
